@@ -61,6 +61,7 @@ pub mod ops {
     pub const PANIC_PUSH: u32 = 1 << 11;
     pub const PUSH_WHEN_FULL: u32 = 1 << 12;
     pub const UNLEASH: u32 = 1 << 13;
+    pub const POLL_HOOK: u32 = 1 << 14;
 }
 
 #[derive(Clone, Copy, PartialEq, Eq, Debug, Hash)]
@@ -144,6 +145,9 @@ pub enum Op {
     Push(usize, PushHow),
     PanicPush(usize, PushHow),
     Poll(bool),
+    /// poll with a new task waker; the waker of the child is invoked while the collection clones
+    /// (registers) that task waker
+    PollHook(u32),
     Complete(u32),
     Feed(u32),
     Wake(u32),
@@ -313,6 +317,9 @@ impl<'a> Run<'a> {
                         if cfg.ops & ops::WAKE != 0 {
                             m.push((Op::Wake(id), costly(ops::WAKE)));
                         }
+                        if alive && cfg.ops & ops::POLL_HOOK != 0 {
+                            m.push((Op::PollHook(id), costly(ops::POLL_HOOK)));
+                        }
                     } else if cfg.ops & ops::STALE_WAKE != 0 {
                         m.push((Op::StaleWake(id), costly(ops::STALE_WAKE)));
                     }
@@ -379,6 +386,12 @@ impl<'a> Run<'a> {
             Op::Push(i, how) => self.do_push(*i, *how, false),
             Op::PanicPush(i, how) => self.do_push(*i, *how, true),
             Op::Poll(new) => self.do_poll(*new),
+            Op::PollHook(c) => {
+                let next = w(|w| w.next_task_waker + 1);
+                w(|w| w.tw_hook = Some((next, *c)));
+                self.do_poll(true);
+                w(|w| w.tw_hook = None);
+            }
             Op::Complete(id) => {
                 w(|w| w.children[*id as usize].released = true);
                 let wk = clone_child_waker(*id);
@@ -406,10 +419,12 @@ impl<'a> Run<'a> {
                 let wk = w(|w| {
                     w.up.fed = true;
                     w.env_wake_depth += 1;
-                    w.up.waker.clone()
+                    w.up.waker.take()
                 });
                 if let Some(wk) = wk {
                     wk.wake_by_ref();
+                    let back = w(|w| if w.up.waker.is_none() { w.up.waker = Some(wk); None } else { Some(wk) });
+                    drop(back);
                 }
                 w(|w| w.env_wake_depth -= 1);
             }
